@@ -4,7 +4,46 @@ use verifkit::{Args, Ctx};
 #[global_allocator]
 static A: verifkit::alloc::Tracking = verifkit::alloc::Tracking;
 
+/// alternative configuration: a logger that is switched on at the most verbose level and
+/// formats every record (into a fixed buffer, nothing is allocated), so that whatever the
+/// library computes for its log lines is really computed
+#[cfg(feature = "altcfg")]
+mod trace_logger {
+    use std::fmt::Write;
+    pub struct Sink;
+    struct Buf([u8; 256], usize);
+    impl Write for Buf {
+        fn write_str(&mut self, s: &str) -> std::fmt::Result {
+            for b in s.bytes() {
+                if self.1 < self.0.len() {
+                    self.0[self.1] = b;
+                    self.1 += 1;
+                }
+            }
+            Ok(())
+        }
+    }
+    impl log::Log for Sink {
+        fn enabled(&self, _: &log::Metadata) -> bool {
+            true
+        }
+        fn log(&self, r: &log::Record) {
+            let mut b = Buf([0; 256], 0);
+            let _ = write!(b, "{}", r.args());
+            std::hint::black_box(&b.0);
+        }
+        fn flush(&self) {}
+    }
+    pub static SINK: Sink = Sink;
+    pub fn install() {
+        let _ = log::set_logger(&SINK);
+        log::set_max_level(log::LevelFilter::Trace);
+    }
+}
+
 fn main() {
+    #[cfg(feature = "altcfg")]
+    trace_logger::install();
     // rtprops --decode-fuzz <target> <artifact>: print the case a fuzzer artifact decodes to
     let a: Vec<String> = std::env::args().collect();
     if a.get(1).map(|s| s == "--decode-fuzz").unwrap_or(false) {
